@@ -4,6 +4,7 @@ SPECIFICATION Spec
 CONSTANTS
   ND = 2
   RefKinds <- MCKinds
+  InsKinds <- MCIns
   ExtSets <- MCExt
   InitSets <- MCInit
   MaxRefs = 3
